@@ -1,6 +1,7 @@
 From Coq Require Import Extraction ExtrOcamlBasic.
-From LCP Require Import Base.ExtractBase Base.CheckedMem Gen.Repo_net
-  Net.NetRW Net.NetAccept Net.NetConnect Net.NetbufRead Net.NetbufWrite Net.NetWorld.
+From LCP Require Import Base.ExtractBase Base.CheckedMem Gen.Repo_net.
+From LCP Require Import Net.NetRW Net.NetAccept Net.NetConnect.
+From LCP Require Import Net.NetbufRead Net.NetbufWrite Net.NetWorld.
 Extraction Language OCaml.
 Extraction "net.ml" force_number_types
   read_retry write_retry accept_retry WBUFLEN RBUF_INIT RBUF_GROW
